@@ -11,9 +11,10 @@
        `kindByLen` = what the pinned snapshot does: by the LENGTH of the last axis), the
        dimensions and shape of the result, the `k` guard.  `…AsIs` = the pinned snapshot.
   2. `sortBy` / `kPairs` / `kNearest`
-       brute-force k-nearest over a list of distances (stable insertion sort, take k).  The
-       sklearn BallTree is an external parameter ASSUMED to return this (validated by each run;
-       near-ties are discarded).
+       brute-force k-nearest over a list of distances (stable insertion sort, take k): the oracle.
+       The sklearn BallTree's answer is an INPUT (§4c `knnAnswerB`, `nnFrom`, `idwFrom`): judged per
+       case, nothing assumed (near-ties at the selection boundary are discarded).
+       §4d `wrapResult`: what the UxDataArray wrappers return (dims, shape, attached grid object).
   3. `idwWeights d p ε = (1/(dᵖ+ε)) / Σ(1/(dᵖ+ε))`, `idwValue`  — exactly
        `weights = 1/(distances**power + 1e-6); weights /= weights.sum(); (data[idx]*weights).sum()`.
        The zero-distance handling of the code IS the `+ 1e-6`; there is no other branch.
@@ -239,6 +240,72 @@ def remapIDW (dist : P → P → K) (pw : K → K) (eps : K) (k : Nat) (S D : Gr
   idwRow dist pw eps k (S.pts sk) (D.pts dk) row
 
 end Views
+
+/-! ## 4c. the tree's answer as an INPUT: what the code computes from it, and its specification
+
+  `_remap_grid_parse` hands `BallTree.query(dest_coords, k)` — for every destination point a list
+  of `k` indices and their distances — to the two remappers.  Nothing is assumed about sklearn:
+  the answer is observed per case (the same public call), judged by `knnAnswerB`, and the
+  theorems of `Props/C12.lean` §8 derive everything else from that judgement. -/
+
+section TreeAnswer
+variable {K : Type} [LE K] [DecidableLE K] [Add K] [Sub K]
+
+/-- **specification of one tree answer** for a destination point whose distances to the sources
+    are `D`: `min k n` distinct indices, each reported distance is the distance of its index
+    (within `tol`), nearest first, and no source left out is nearer than one returned. -/
+def knnAnswerB (tol : K) (D : List K) (k : Nat) (idx : List Nat) (ds : List K) : Bool :=
+  (idx.length == min k D.length) && (ds.length == idx.length)
+  && decide idx.Nodup
+  && (List.zip idx ds).all (fun p =>
+        match D[p.1]? with
+        | some d => decide (d - tol ≤ p.2) && decide (p.2 ≤ d + tol)
+        | none => false)
+  && pairwiseB (fun a b => decide (a ≤ b + tol)) ds
+  && idx.all (fun i => (List.range D.length).all (fun j =>
+        idx.contains j ||
+          (match D[i]?, D[j]? with
+           | some a, some b => decide (a ≤ b + tol)
+           | _, _ => false)))
+
+/-- `source_data[..., idx[:, 0]]` at one destination point -/
+def nnFrom (idx : List Nat) (row : List K) : Option K :=
+  match idx with
+  | i :: _ => row[i]?
+  | [] => none
+
+variable [Mul K] [Div K] [OfNat K 0] [OfNat K 1]
+
+/-- `np.sum(source_data[..., idx] * weights(ds), axis=-1)` at one destination point -/
+def idwFrom (pw : K → K) (eps : K) (idx : List Nat) (ds row : List K) : K :=
+  idwValue pw eps ds (gather row idx)
+
+end TreeAnswer
+
+/-! ## 4d. what the `UxDataArray` wrappers return -/
+
+/-- a data array as far as the property speaks of it: dimension names, shape, and WHICH grid
+    object it is attached to -/
+structure Arr where
+  dims : List Dim
+  shape : List Nat
+  grid : Nat
+  deriving DecidableEq, Repr
+
+/-- `UxDataArray(data=destination_data, dims=destination_dims, uxgrid=destination_grid, …)`:
+    the input's dims with the last one replaced, the leading shape followed by the number of
+    destination points, attached to the destination grid OBJECT — one rule, whatever the sizes
+    (`none` = 0-d input). -/
+def wrapResult (src : Arr) (destGrid : Nat) (dest : Kind) (nDst : Nat) : Option Arr :=
+  (outDims src.dims dest).map (fun d =>
+    { dims := d, shape := outShape src.shape.dropLast nDst, grid := destGrid })
+
+/-- the shape of a fast path that is NOT the model: "dims and shape unchanged ⇒ copy the source
+    variable" (keeps the SOURCE's grid; see `UxVerif.C12.fastpath_keeps_source_grid`) -/
+def wrapResultFastPath (src : Arr) (destGrid : Nat) (dest : Kind) (nDst : Nat) : Option Arr :=
+  match wrapResult src destGrid dest nDst with
+  | some r => if r.dims = src.dims ∧ r.shape = src.shape then some src else some r
+  | none => none
 
 /-! ## 5. float-tolerant decidable specifications (driver side) -/
 
